@@ -46,7 +46,7 @@ func init() {
 		Run:    runC12})
 }
 
-func triageC12(f *Failure) string { return "" }
+func triageC12(f *Failure) string { return triageDiff(f) }
 
 // pikeAll enumerates successive matches with the driven PikeVM and stdlib's resume rule.
 func pikeAll(vm *nfa.PikeVM, h []byte) string {
